@@ -55,7 +55,7 @@ theorem baseList_timing (t : Task) (ρ : Env) (h : Sat ρ t.baseList) :
 
 /-- what `set_assertions` yields for a scheduled task -/
 theorem setAssertions_scheduled (t : Task) (ρ : Env) (h : Sat ρ t.setAssertions) (hs : Scheduled ρ t) :
-    Sat ρ t.baseList := by
+    Sat ρ t.guarded := by
   unfold Task.setAssertions at h
   by_cases ho : t.optional = true
   · simp only [ho, if_true] at h
@@ -85,9 +85,9 @@ theorem setAssertions_unscheduled (t : Task) (ρ : Env) (h : Sat ρ t.setAsserti
   · unfold Task.startV Task.endV; omega
 
 theorem Sat_taskAsserts_init {st : State} {t : Task} {ρ : Env} (h : Sat ρ (st.taskAsserts t)) :
-    Sat ρ t.releaseDue ∧ Sat ρ t.setAssertions := by
+    Sat ρ t.setAssertions := by
   unfold State.taskAsserts Task.initAsserts at h
-  rw [Sat.append, Sat.append] at h
+  rw [Sat.append] at h
   exact h.1
 
 /-- **C01.**  Every scheduled task obeys window, duration, release date and deadline in every
@@ -96,8 +96,11 @@ theorem C01_task_timing (cfg : Config) (st : State) (ρ : Env) (hρ : Sat ρ (in
     ∀ t ∈ st.tasks, Scheduled ρ t → TaskTimingOK st.horizon t ρ := by
   intro t ht hs
   have hT : Sat ρ (st.taskAsserts t) := fun a ha => hρ a (mem_init_task ht ha)
-  obtain ⟨hRD, hSA⟩ := Sat_taskAsserts_init hT
-  have hB := setAssertions_scheduled t ρ hSA hs
+  have hSA := Sat_taskAsserts_init hT
+  have hG := setAssertions_scheduled t ρ hSA hs
+  unfold Task.guarded at hG
+  rw [Sat.append] at hG
+  obtain ⟨hRD, hB⟩ := hG
   obtain ⟨h0, hd, hok⟩ := baseList_timing t ρ hB
   have hH := hρ _ (mem_init_horizon (cfg := cfg) ht)
   simp [Task.horizonFml, Fml.eval, Term.eval, Task.eVar] at hH
@@ -119,7 +122,7 @@ theorem C01_unscheduled_parked (cfg : Config) (st : State) (ρ : Env) (hρ : Sat
     ∀ t ∈ st.tasks, t.optional = true → ρ.b (.sched t.name) = false → TaskParked t ρ := by
   intro t ht ho hs
   have hT : Sat ρ (st.taskAsserts t) := fun a ha => hρ a (mem_init_task ht ha)
-  exact setAssertions_unscheduled t ρ (Sat_taskAsserts_init hT).2 ho hs
+  exact setAssertions_unscheduled t ρ (Sat_taskAsserts_init hT) ho hs
 
 /-! ### non-vacuity: a concrete state and interpretation meeting the hypotheses -/
 
